@@ -1,6 +1,8 @@
 import FormulaicVerif.Engines.Json
 import FormulaicVerif.Model.Nulls
-/-! Engine `c06`: runs `Model.Nulls.call` on one call record.
+import FormulaicVerif.Model.NullsHistory
+/-! Engine `c06`: runs `Model.Nulls.call` on one call record, or (`"op": "history"`)
+`Model.NullsHist.runHistory` on a list of calls made on ONE materializer object.
 
 request  {"variant": "current" | "legacy" (default current), "n": rows, "labels": [str…],
           "policy": "drop"|"raise"|"ignore", "output": "pandas"|"numpy"|"sparse"|"narwhals",
@@ -13,9 +15,15 @@ The cells of every factor are the row positions `0 … n-1`, so a surviving colu
 positions that were kept.
 answer   {"error": kind} | {"parts": [{"nrows", "intercept": k|null, "cols": [[pos…]…],
                                         "index": [str…] | {"range": k} | null}…],
-                            "final": [nat…] (sorted) | null} -/
+                            "final": [nat…] (sorted) | null}
+
+history  {"op": "history", "variant", "reset": bool (default true: the caches are emptied at the
+          start of a call), "n", "labels",
+          "calls": [{"policy", "output", "caller", "parts": [… as above, every factor with its
+                     cache key "key": expr …]}…]}
+answer   {"calls": [one answer as above per call, in order]} -/
 namespace FormulaicVerif.Engines.C06
-open Lean FormulaicVerif.Engines FormulaicVerif.Model.Nulls
+open Lean FormulaicVerif.Engines FormulaicVerif.Model.Nulls FormulaicVerif.Model.NullsHist
 
 def policyOf : String → Policy
   | "raise" => .raise
@@ -79,20 +87,49 @@ def matrixJ (m : Matrix String Nat) : Json :=
     ("cols", jlist (m.cols.map jnats)),
     ("index", indexJ m.index)]
 
-def handle (j : Json) : Json :=
+def callerOf (j : Json) : Option DropSet :=
+  match jval j "caller" with
+  | .arr a => some (a.toList.map asNat).eraseDups
+  | _ => none
+
+def kpartOf (n : Nat) (j : Json) : KPart Nat :=
+  ⟨matOf (jstr j "mat"), jbool j "intercept",
+   (jarr j "factors").map (fun f => ⟨jstr f "key", factorOf n f⟩)⟩
+
+def hcallOf (n : Nat) (j : Json) : Call Nat :=
+  ⟨policyOf (jstr j "policy"), outputOf (jstr j "output"), (jarr j "parts").map (kpartOf n), callerOf j⟩
+
+def herrStr : HErr → String
+  | .rows e => errStr e
+  | .keyError => "Other:KeyError"
+
+def calloutJ (r : CallOut String Nat) : Json :=
+  Json.mkObj [
+    ("parts", jlist (r.mats.map matrixJ)),
+    ("final", match r.callerAfter with | some s => jnats (sorted s) | none => Json.null)]
+
+def handleHistory (j : Json) : Json :=
   let v := if jstr j "variant" == "legacy" then legacy else current
   let n := jnat j "n"
-  let caller : Option DropSet :=
-    match jval j "caller" with
-    | .arr a => some (a.toList.map asNat).eraseDups
-    | _ => none
+  let reset := match jval j "reset" with | .bool b => b | _ => true
+  let calls := (jarr j "calls").map (hcallOf n)
+  let rs := runHistory reset v (strs j "labels") n calls Caches.empty
+  Json.mkObj [("calls", jlist (rs.map (fun r =>
+    match r with
+    | .error e => jerr (herrStr e)
+    | .ok o => calloutJ o)))]
+
+def handleCall (j : Json) : Json :=
+  let v := if jstr j "variant" == "legacy" then legacy else current
+  let n := jnat j "n"
+  let caller : Option DropSet := callerOf j
   let c : CallRec := ⟨entryOf (jstr j "entry"), jbool j "structured", jbool j "overrides", jbool j "joint", caller⟩
   let parts := (jarr j "parts").map (partOf n)
   match call v (strs j "labels") n (policyOf (jstr j "policy")) (outputOf (jstr j "output")) parts c with
   | .error e => jerr (errStr e)
-  | .ok r =>
-    Json.mkObj [
-      ("parts", jlist (r.mats.map matrixJ)),
-      ("final", match r.callerAfter with | some s => jnats (sorted s) | none => Json.null)]
+  | .ok r => calloutJ r
+
+def handle (j : Json) : Json :=
+  if jstr j "op" == "history" then handleHistory j else handleCall j
 
 end FormulaicVerif.Engines.C06
